@@ -195,17 +195,17 @@ Section Engines.
     let st := request_settings c q in
     match r_reason res with
     | NotFilteredAllowList | RewrittenLegacy | RewrittenRule | FilteredSafeSearch =>
-        mkOutcome (Some r) [the_call q] res false true (q_name q)
+        mkOutcome (Some r) [the_call q] res false true (resp_qname r (q_name q))
     | _ =>
         if negb (protection_on c) || negb (st_filtering st)
-        then mkOutcome (Some r) [the_call q] res false true (q_name q)
+        then mkOutcome (Some r) [the_call q] res false true (resp_qname r (q_name q))
         else
           match filter_answer c st (rs_answer r) with
           | (_, Some fr) =>
               mkOutcome (Some (fst (filter_message c up (q_name q) (q_qtype q) fr))) [the_call q] fr true true
                         (q_name q)
           | (ans', None) =>
-              mkOutcome (Some (mkResp (rs_rcode r) ans' (rs_soa r))) [the_call q] res false true (q_name q)
+              mkOutcome (Some (with_answer r ans')) [the_call q] res false true (resp_qname r (q_name q))
           end
     end.
 
@@ -228,7 +228,7 @@ Section Engines.
       else match up cn qt with
            | None => mkOutcome (Some servfail) [(cn, qt)] res false false name
            | Some r =>
-               mkOutcome (Some (mkResp (rs_rcode r) (rec_cname c name (r_canon res) :: rs_answer r) (rs_soa r)))
+               mkOutcome (Some (with_answer r (rec_cname c name (r_canon res) :: rs_answer r)))
                          [(cn, qt)] res false true name
            end
     else if r_filtered res then
@@ -717,7 +717,7 @@ Section Engines.
       else match up cn qt with
            | None => mkOutcome (Some servfail) [(cn, qt)] res false false name
            | Some r =>
-               mkOutcome (Some (mkResp (rs_rcode r) (rec_cname c name (r_canon res) :: rs_answer r) (rs_soa r)))
+               mkOutcome (Some (with_answer r (rec_cname c name (r_canon res) :: rs_answer r)))
                          [(cn, qt)] res false true name
            end
     else mkOutcome (Some (cname_with_ips c name qt (r_iplist res) (r_canon res))) [] res false true name.
@@ -756,7 +756,7 @@ Section Engines.
     prefilter c q = PContinue false -> verdict c q = Some res -> is_rewritten_cname res = true ->
     up (fqdn (r_canon res)) (q_qtype q) = Some r ->
     let o := process c up q in
-    o_resp o = Some (mkResp (rs_rcode r) (rec_cname c (q_name q) (r_canon res) :: rs_answer r) (rs_soa r)) /\
+    o_resp o = Some (with_answer r (rec_cname c (q_name q) (r_canon res) :: rs_answer r)) /\
     o_calls o = [(fqdn (r_canon res), q_qtype q)] /\ o_result o = res /\
     o_orig_kept o = false /\ o_qname o = q_name q.
   Proof.
@@ -872,9 +872,17 @@ Section Engines.
 
   (** A query that passes the request stage is forwarded exactly once, with
       its own name and type; an upstream failure gives SERVFAIL. *)
+  (** (Round 6: the question of a delivered upstream answer is the one the
+      upstream put into it, [resp_qname]: the client's up to ASCII case; the
+      question of the blocking-mode answer is the client's.) *)
   Theorem forwarded_once c up q res :
     passes_request_stage c q res ->
-    o_calls (process c up q) = [the_call q] /\ o_qname (process c up q) = q_name q /\
+    o_calls (process c up q) = [the_call q] /\
+    o_qname (process c up q) =
+      match up (q_name q) (q_qtype q) with
+      | Some r => if o_orig_kept (process c up q) then q_name q else resp_qname r (q_name q)
+      | None => q_name q
+      end /\
     (up (q_name q) (q_qtype q) = None -> o_resp (process c up q) = Some servfail).
   Proof.
     intros Hp. rewrite (passes_outcome _ _ _ _ Hp). split; [apply forward_outcome_calls|].
@@ -885,13 +893,42 @@ Section Engines.
        destruct (filter_answer _ _ _) as [a [f|]]; reflexivity).
   Qed.
 
+  Lemma lower_upper_byte b : lower_byte (upper_byte b) = lower_byte b.
+  Proof.
+    unfold upper_byte, lower_byte.
+    destruct ((97 <=? b) && (b <=? 122)) eqn:E.
+    - apply andb_true_iff in E as [E1 E2]. apply N.leb_le in E1, E2.
+      assert ((65 <=? b - 32) && (b - 32 <=? 90) = true) as ->
+        by (apply andb_true_iff; split; apply N.leb_le; lia).
+      assert ((65 <=? b) && (b <=? 90) = false) as ->
+        by (apply andb_false_iff; right; apply N.leb_gt; lia).
+      lia.
+    - reflexivity.
+  Qed.
+
+  Lemma lower_byte_idem' b : lower_byte (lower_byte b) = lower_byte b.
+  Proof.
+    unfold lower_byte. destruct ((65 <=? b) && (b <=? 90)) eqn:E; [|rewrite E; reflexivity].
+    apply andb_true_iff in E as [E1 E2]. apply N.leb_le in E1, E2.
+    assert ((65 <=? b + 32) && (b + 32 <=? 90) = false) as ->
+      by (apply andb_false_iff; right; apply N.leb_gt; lia).
+    reflexivity.
+  Qed.
+
+  (** The question inside an upstream answer is the asked one up to ASCII case. *)
+  Lemma resp_qname_fold r n : lower (resp_qname r n) = lower n.
+  Proof.
+    unfold resp_qname, lower, upper. destruct (rs_qcase r); [reflexivity| |];
+      rewrite map_map; apply map_ext; intros b; [apply lower_byte_idem' | apply lower_upper_byte].
+  Qed.
+
   (** Allow-listed: the upstream answer is delivered exactly as it came, with
       the client's question. *)
   Theorem allowlisted_intact c up q res r :
     passes_request_stage c q res -> r_reason res = NotFilteredAllowList ->
     up (q_name q) (q_qtype q) = Some r ->
     o_resp (process c up q) = Some r /\ o_result (process c up q) = res /\
-    o_qname (process c up q) = q_name q.
+    o_qname (process c up q) = resp_qname r (q_name q).
   Proof.
     intros Hp Hr Hu. rewrite (passes_outcome _ _ _ _ Hp). unfold forward_outcome. rewrite Hu.
     unfold after_upstream. rewrite Hr. repeat split.
@@ -1001,7 +1038,8 @@ Section Engines.
     match filter_answer c (request_settings c q) (rs_answer r) with
     | (_, Some fr) =>
         mkOutcome (Some (fst (filter_message c up (q_name q) (q_qtype q) fr))) [the_call q] fr true true (q_name q)
-    | (ans', None) => mkOutcome (Some (mkResp (rs_rcode r) ans' (rs_soa r))) [the_call q] no_result false true (q_name q)
+    | (ans', None) =>
+        mkOutcome (Some (with_answer r ans')) [the_call q] no_result false true (resp_qname r (q_name q))
     end.
   Proof. intros Hp Hf. unfold after_upstream. cbn [r_reason no_result]. rewrite Hp, Hf. reflexivity. Qed.
 
@@ -1082,8 +1120,8 @@ Section Engines.
     up (q_name q) (q_qtype q) = Some r ->
     Forall (clean c (request_settings c q)) (rs_answer r) ->
     let o := process c up q in
-    o_resp o = Some (mkResp (rs_rcode r) (map (strip_rr c) (rs_answer r)) (rs_soa r)) /\
-    o_orig_kept o = false /\ r_filtered (o_result o) = false /\ o_qname o = q_name q.
+    o_resp o = Some (with_answer r (map (strip_rr c) (rs_answer r))) /\
+    o_orig_kept o = false /\ r_filtered (o_result o) = false /\ o_qname o = resp_qname r (q_name q).
   Proof.
     intros (Hpass & Hp & Hfil) Hu Hclean. cbv zeta.
     rewrite (passes_outcome _ _ _ _ Hpass). unfold forward_outcome. rewrite Hu.
